@@ -47,12 +47,12 @@ INST_A = '''#include <xtl/xoptional_sequence.hpp>
 using BS = xtl::xdynamic_bitset<unsigned char>;
 using OA = xtl::xoptional_array<int, 3, BS>;
 using OS = xtl::xoptional_sequence<std::array<int, 3>, BS>;
-// (explicit instantiation of the whole class is impossible: its iterator typedefs do not compile for std::array, whose iterators are pointers)
 namespace xv_unit {
 OA make_default() { return OA(); }                    // the defaulted constructor through the code clang generates for it
 OA make_sv(const int& v) { return OA(3, v); }
 OA make_so(const xtl::xoptional<int, bool>& v) { return OA(3, v); }
-int use(OS& s, const OS& c, std::size_t i) { return s.at(i).value() + s[i].value() + s.front().value() + s.back().value() + c.at(i).value() + c[i].value() + c.front().value() + c.back().value() + (int)c.size() + (int)c.empty(); }
+int use(OS& s, const OS& c, std::size_t i) { return s.at(i).value() + s[i].value() + s.front().value() + s.back().value() + c.at(i).value() + c[i].value() + c.front().value() + c.back().value() + (int)c.size() + (int)c.empty()
+    + (*s.begin()).value() + (*c.cbegin()).value() + (*s.rbegin()).value() + (int)(s.end() - s.begin()); }   // the array variant's forward/const/reverse iterators exist (fix ac98bdd)
 }
 bool eq(const OS& a, const OS& b) { return a == b; }
 '''
@@ -95,15 +95,20 @@ def build(tier, workdir, seed):
     u2 = Unit('cplxv', INST_C, select_c, open(os.path.join(VERIF, 'contracts', 'C11_cseq.h')).read(), ra2, defines=['NDEBUG'], fn_alias=alias_c).lower(workdir)
     inl2 = {a: {'inline': [c for c in u2.contracts if c.startswith('cs__ctor')]} for a in u2.contracts if a.startswith('cv__ctor')}
     jobs += u2.contract_jobs(PROP, timeout=900, extra=inl2)
-    return {'jobs': jobs, 'units': [u, u2, u3], 'trusted_base': sorted(set(list(u.std.used) + list(u2.std.used) + list(u3.std.used))) + ['clang 14 AST; xtl2c lowering rules (DESIGN.md 3.2)',
+    # the paired iterators (xoptional_iterator / xcomplex_iterator of the vector variants): every primitive keeps both sub-iterators at
+    # one position and dereferencing designates (values[k], flag k) resp. (real[k], imag[k]) - contracts shared with the C12 check
+    from props import C12
+    up = Unit('piter', C12.INST_P, C12.select_p, open(os.path.join(VERIF, 'contracts', 'C12_oiter.h')).read(), C12.REC_ALIAS_P, defines=['NDEBUG'], extra_c='int* xv_arr;\nint* xv_arr2;\n').lower(workdir)
+    jobs += up.contract_jobs(PROP, aliases=[c for c in up.contracts if c in up.lw.loops and re.match(r'(oit|cit)__', c)], timeout=600, inline_all=True)
+    return {'jobs': jobs, 'units': [u, u2, u3, up], 'trusted_base': sorted(set(list(u.std.used) + list(u2.std.used) + list(u3.std.used) + list(up.std.used))) + ['clang 14 AST; xtl2c lowering rules (DESIGN.md 3.2)',
                 'xdynamic_bitset members (constructor, resize, at, operator[], front, back, ==) enter through their C03 contracts, which the C03 check proves; std::vector through model/xv_vec.h (inlined C with loop contracts)'],
             'assumptions': ['instantiations: xoptional_vector<int, std::allocator<int>, xdynamic_bitset<uint8_t>>, xoptional_array<int, 3, xdynamic_bitset<uint8_t>>, xcomplex_vector<int, false> (the containers never compute with the elements)',
                             'size arguments up to XV_MAXBLK = 10^6 elements; for the array the size argument equals N (the property says: called with the container\'s own size)',
                             'the lockstep invariant (both storages well formed and of the length of size()) is required on entry and proved on exit of every member: induction over operation histories is the meta-argument',
                             'element writes through a proxy are covered by: the proxy designates exactly (&values[i], flag block/mask of bit i) (this check) + xbitset_reference / xoptional assignment contracts (C03, C04)',
                             'the defaulted constructors are reached through a wrapper in the instantiation unit (xv_unit::make_default) so that the code clang generates for them is lowered'],
-            'coverage_extra': {'not_reached': ['iterators of the sequences (begin/end/rbegin..., xoptional_iterator, xcomplex_iterator): exercised by the replay only', 'initializer_list constructors', 'xcomplex_array',
-                                               'relational operators < <= > >= of the sequences', 'xoptional_array iterators do not compile for std::array (pointer iterators have no ::value_type): nothing to verify']}}
+            'coverage_extra': {'not_reached': ['begin/end/rbegin/... of the sequences and the const / reverse / array instantiations of the paired iterators (the vector variants\' xoptional_iterator / xcomplex_iterator primitives are under contract)', 'initializer_list constructors', 'xcomplex_array',
+                                               'relational operators < <= > >= of the sequences']}}
 
 
 def replay(ctx, job, ob, steps, base):
